@@ -12,10 +12,11 @@ fi
 git -C $S/repo checkout -q --detach $(git -C /repo rev-parse HEAD) 2>/dev/null
 git -C $S/repo checkout -q -- . ; git -C $S/repo clean -fdq
 mkdir -p $S/verif
-rsync -a --delete --exclude .cache --exclude out --exclude .git --exclude 'seeded' /verif/ $S/verif/
+SRC=${VERIF_SRC:-}; if [ -z "$SRC" ]; then SRC=/verif; [ -f /tmp/verif_snap/.ready ] && SRC=/tmp/verif_snap; fi
+rsync -a --delete --exclude .cache --exclude out --exclude .git --exclude seeded $SRC/ $S/verif/
 sed -i "s#path = \"/repo\"#path = \"$S/repo\"#" $S/verif/harness/Cargo.toml
 # reuse compiled artefacts where possible
-if [ ! -d $S/verif/.cache/harness-target ]; then mkdir -p $S/verif/.cache; cp -a /verif/.cache/harness-target $S/verif/.cache/ 2>/dev/null; fi
+if [ ! -d $S/verif/.cache/harness-target ]; then mkdir -p $S/verif/.cache; cp -a $SRC/.cache/harness-target $S/verif/.cache/ 2>/dev/null; fi
 case "$patch" in
   -R:*) git -C /repo show ${patch#-R:} -- src | git -C $S/repo apply -R || { echo "cannot reverse-apply"; exit 2; } ;;
   *) git -C $S/repo apply "$patch" || { echo "cannot apply patch"; exit 2; } ;;
